@@ -148,6 +148,11 @@ func Run(o Opts) (*Result, error) {
 	jtmp := filepath.Join(runDir, "jtmp")
 	_ = os.MkdirAll(jtmp, 0o755)
 	args := []string{"-XX:+UseParallelGC", fmt.Sprintf("-Xmx%dm", o.HeapMB), "-Djava.io.tmpdir=" + jtmp}
+	if o.StackMB == 0 {
+		// recursive operators over strings / sequences (lexer, sentences, sorts) overflow the
+		// default thread stack now and then; a StackOverflowError is not a verdict
+		o.StackMB = 256
+	}
 	if o.StackMB > 0 {
 		args = append(args, fmt.Sprintf("-Xss%dm", o.StackMB))
 	}
